@@ -62,6 +62,11 @@ def maps(ctx, out):
             ivals = []
             for tk in ticks:
                 ts, idx = be.timestamp_at_tick(tk)
+                ts2 = be.timestamp_at_tick_no_optimize_return(tk)
+                if ts2 != ts:
+                    out.violation("api-" + fw.h([res, tempo, tk]), f"the two public queries disagree for tick {tk}: {ts // US} µs vs {ts2 // US} µs "
+                                  "(equal ticks must have identical timestamps)", {"op": "sweep", "res": res, "tempo": tempo, "ticks": [tk], "both": True},
+                                  observed=[ts // US, ts2 // US], promised="identical")
                 ivals.append(ts // US)
         except Exception as e:  # noqa: BLE001
             out.violation("map-" + fw.h([res, tempo]), f"well-formed tempo map raised {impl.err_name(e)}",
@@ -137,6 +142,9 @@ def replay(ctx: fw.Ctx, data: dict):
         res, tempo, ticks = data["res"], [tuple(x) for x in data["tempo"]], data["ticks"]
         be = C01.build_bpm_events(res, tempo)
         vals = [be.timestamp_at_tick(t)[0] // US for t in ticks]
+        if data.get("both"):
+            v2 = [be.timestamp_at_tick_no_optimize_return(t) // US for t in ticks]
+            return vals != v2, f"{vals} vs {v2} (replay in isolation: a history-dependent disagreement needs the slice)"
         dec = any(a > b for a, b in zip(vals, vals[1:]))
         eq = data.get("strict") and any(a == b for a, b in zip(vals, vals[1:]))
         return bool(dec or eq), str(vals)
